@@ -78,8 +78,11 @@ CallV(c, r, k, tg, vprop, keep) ==
                      ELSE IF c.rspN = "" THEN [outcome |-> "noerror"]
                      ELSE [outcome |-> "agrees", vprop |-> vprop, value |-> Expected(c.rspN, Tables[c.rspN], RspRec(c, k))])]
 MsgBytes(c, k) == MsgRspBytes(129, c.netfn + 1, 0, 1, Lun(c, k), c.num, 0, c.group \o RspBytes(c, k))
-ReactIn(c, k, j) == [React0 EXCEPT !.datagrams = << Dg(SessPacket(S, LE32s(j), B(MsgBytes(c, k)), [i \in 1..16 |-> (i + j) % 256]), [kind |-> "rsp", valid |-> TRUE, code |-> 0]) >>]
-ReactOut(c, k) == [React0 EXCEPT !.datagrams = << Dg(NullWrapper(0, B(MsgBytes(c, k))), [kind |-> "rsp", valid |-> TRUE, code |-> 0]) >>]
+\* every other reply carries an RMCP sequence number of the BMC's own (2Ah, 00h, FEh ...) instead of FFh: whatever the
+\* library makes of it, its next request must again start 06 00 FF 07 (the RMCP header is outside the AuthCode)
+Stamp(t, j) == IF j % 2 = 0 THEN SetByte(t, 2, (j * 21) % 255) ELSE t
+ReactIn(c, k, j) == [React0 EXCEPT !.datagrams = << Dg(Stamp(SessPacket(S, LE32s(j), B(MsgBytes(c, k)), [i \in 1..16 |-> (i + j) % 256]), j), [kind |-> "rsp", valid |-> TRUE, code |-> 0]) >>]
+ReactOut(c, k, j) == [React0 EXCEPT !.datagrams = << Dg(Stamp(NullWrapper(0, B(MsgBytes(c, k))), j), [kind |-> "rsp", valid |-> TRUE, code |-> 0]) >>]
 
 Rev(q) == [i \in 1..Len(q) |-> q[Len(q) + 1 - i]]
 \* --- the convenience methods (bmc.SessionCommands / SessionlessCommands, pkg/dcmi commanders): same wire behaviour,
@@ -147,7 +150,7 @@ StepsFor(cs, k, tg, j, vprop, keep) ==
   LET c == Head(cs)
       rs == ReqRecs(c, k + j)
       r == CHOOSE x \in rs : TRUE
-  IN (IF rs = {} THEN <<>> ELSE << CallV(c, r, k + j, tg, vprop, keep), IF tg = "sess" THEN ReactIn(c, k + j, j) ELSE ReactOut(c, k + j) >>)
+  IN (IF rs = {} THEN <<>> ELSE << CallV(c, r, k + j, tg, vprop, keep), IF tg = "sess" THEN ReactIn(c, k + j, j) ELSE ReactOut(c, k + j, j) >>)
      \o StepsFor(Tail(cs), k, tg, j + 1, vprop, keep)
 \* one script per (seed offset, target): every command once, in table order and in reverse (results must not depend on what preceded)
 \* every command twice in a row through one command value the caller keeps, with different response contents
